@@ -27,7 +27,11 @@ int main(void)
         NewMatrix(&ap, m->row, m->col); MatrixPreprocess(m, (int)ty, avg, sc, ap); pr_matrix("apply_same", ap);
         { matrix *k = dup_matrix(ap), *e0; junk_m(ap); MatrixPreprocess(m, (int)ty, avg, sc, ap); RB(2, same_m(ap, k));
           /* ... and into an empty (never sized) output, which the apply path sizes itself */
-          initMatrix(&e0); MatrixPreprocess(m, (int)ty, avg, sc, e0); RB(3, same_m(e0, k)); DelMatrix(&e0); DelMatrix(&k); }
+          initMatrix(&e0); MatrixPreprocess(m, (int)ty, avg, sc, e0); RB(3, same_m(e0, k)); DelMatrix(&e0);
+          /* ... and with every other value of the option argument: with stored statistics the routine applies THEM (the predictors
+             of the library pass -1), the option of the fit is not needed again */
+          { int t2; for(t2 = -1; t2 <= 5; t2++){ NewMatrix(&e0, m->row, m->col); MatrixPreprocess(m, t2, avg, sc, e0); RB(4, same_m(e0, k)); DelMatrix(&e0); } }
+          DelMatrix(&k); }
         DelMatrix(&ap);
         NewMatrix(&ap2, newrows->row, newrows->col); MatrixPreprocess(newrows, (int)ty, avg, sc, ap2); pr_matrix("apply_new", ap2); DelMatrix(&ap2);
       }
